@@ -55,6 +55,8 @@ type ledgerSnap struct {
 	sidx    map[string]string
 	pidx    map[string]string
 	holds   map[string]uint64
+	bal     map[string]*big.Int // native-token bank balance of the tracked native stakers (by stakerID)
+	escrow  *big.Int            // bank balance of the delegated_pool module account
 }
 
 func sortedMapLines[V any](m map[string]V, f func(k string, v V) string) string {
@@ -67,11 +69,18 @@ func sortedMapLines[V any](m map[string]V, f func(k string, v V) string) string 
 	return strings.Join(parts, ";")
 }
 
+// native stakers tracked by the ledger domain (stakerID -> account)
+var ledgerNativeStakers = map[string]sdk.AccAddress{}
+
 func (c *Chain) ledgerSnap() (*ledgerSnap, error) {
 	ctx := c.Ctx
 	s := &ledgerSnap{height: ctx.BlockHeight(), totals: map[string]*big.Int{}, stakers: map[string]lsStaker{}, pools: map[string]lsPool{},
 		deleg: map[string]lsDeleg{}, slist: map[string][]string{}, assoc: map[string]string{}, recs: map[string]lsRec{},
-		sidx: map[string]string{}, pidx: map[string]string{}, holds: map[string]uint64{}}
+		sidx: map[string]string{}, pidx: map[string]string{}, holds: map[string]uint64{}, bal: map[string]*big.Int{}}
+	for sid, acc := range ledgerNativeStakers {
+		s.bal[sid] = c.App.BankKeeper.GetBalance(ctx, acc, assetstypes.ExocoreAssetDenom).Amount.BigInt()
+	}
+	s.escrow = c.App.BankKeeper.GetBalance(ctx, c.App.AccountKeeper.GetModuleAddress(delegationtypes.DelegatedPoolName), assetstypes.ExocoreAssetDenom).Amount.BigInt()
 	assets, err := c.App.AssetsKeeper.GetAllStakingAssetsInfo(ctx)
 	if err != nil {
 		return nil, err
@@ -173,6 +182,8 @@ func (s *ledgerSnap) dump() string {
 		sec("SI", sortedMapLines(s.sidx, func(k, v string) string { return k + "=" + v })),
 		sec("PI", sortedMapLines(s.pidx, func(k, v string) string { return k + "=" + v })),
 		sec("HC", sortedMapLines(s.holds, func(k string, v uint64) string { return fmt.Sprintf("%s=%d", k, v) })),
+		sec("B", sortedMapLines(s.bal, func(k string, v *big.Int) string { return k + "=" + v.String() })),
+		"E=" + s.escrow.String(),
 	}, " ")
 }
 
@@ -211,6 +222,24 @@ func (s *ledgerSnap) checkInvariants(env *Env, hist []string, tolerateOrphans bo
 	for k, v := range s.pools {
 		if neg(v.amount) || neg(v.pending) || neg(v.totalShare) || neg(v.opShare) {
 			viol("C01.nonneg", "negative-pool", "negative pool figure "+k)
+		}
+	}
+	// C01 native token: the escrow account holds at least the native pools plus the pending amounts
+	env.Eval("C01.escrow")
+	if s.escrow != nil {
+		need := new(big.Int)
+		for k, v := range s.pools {
+			if strings.HasSuffix(k, "/"+assetstypes.ExocoreAssetID) {
+				need.Add(need, v.amount)
+			}
+		}
+		for _, r := range s.recs {
+			if r.asset == assetstypes.ExocoreAssetID {
+				need.Add(need, r.actual)
+			}
+		}
+		if s.escrow.Cmp(need) < 0 {
+			viol("C01.escrow", "escrow-short", fmt.Sprintf("delegated_pool holds %s, native pools + pending need %s", s.escrow, need))
 		}
 	}
 	// C02: share sums, staker list, zero-amount ⇒ zero shares
@@ -352,7 +381,8 @@ type ledgerWorld struct {
 	assets    []AssetSpec
 	nonce     uint64
 	slashN    int
-	curDec    uint32 // decimals of the asset the current op is about
+	curDec    uint32  // decimals of the asset the current op is about
+	nstakers  []Actor // accounts holding native tokens that delegate the native asset
 	lastSlash *slashEvent
 	huge      bool // extreme amounts (2^64..2^200); such histories never reach an epoch end (see C11 findings F-11f/g)
 	gDep      map[string]*big.Int
@@ -500,6 +530,33 @@ func domLedger(env *Env) error {
 		for _, o := range c.Operators {
 			w.stakers = append(w.stakers, o)
 		}
+		// in half of the histories the native token is registered as a staking asset (as an operator of
+		// the network would have to do in genesis): only then can operators holding a native pool be
+		// slashed at all (finding F-04c) and native undelegations be slashed while pending
+		if rng.Chance(1, 2) {
+			if err := c.CachedDo(func(ctx sdk.Context) error {
+				return c.App.AssetsKeeper.SetStakingAssetInfo(ctx, &assetstypes.StakingAssetInfo{
+					AssetBasicInfo: assetstypes.AssetInfo{Name: "Exocore native token", Symbol: "exo", Address: assetstypes.ExocoreAssetAddr,
+						Decimals: 6, LayerZeroChainID: assetstypes.ExocoreChainLzID, MetaInfo: "native"},
+					StakingTotalAmount: sdkmath.ZeroInt()})
+			}); err != nil {
+				return fmt.Errorf("register native token: %w", err)
+			}
+			env.Outcome("history.native-registered")
+		}
+		// accounts delegating the native token (funded from the genesis account)
+		ledgerNativeStakers = map[string]sdk.AccAddress{}
+		for i := 0; i < 2; i++ {
+			a := NewActor(cfg.Seed, "native-staker", i)
+			amt := sdkmath.NewInt(int64(1000 + rng.Intn(1000000)))
+			if err := c.CachedDo(func(ctx sdk.Context) error {
+				return c.App.BankKeeper.SendCoins(ctx, c.Funded.Acc, a.Acc, sdk.NewCoins(sdk.NewCoin(assetstypes.ExocoreAssetDenom, amt)))
+			}); err != nil {
+				return fmt.Errorf("fund native staker: %w", err)
+			}
+			w.nstakers = append(w.nstakers, a)
+			ledgerNativeStakers[StakerIDOf(assetstypes.ExocoreChainLzID, a.Eth)] = a.Acc
+		}
 		// ---- initial state to the model
 		s0 := w.snapAndCheck()
 		w.emit(fmt.Sprintf("ledger.reset %d %d", s0.height, operatortypes.UnbondingExpiration), "ok")
@@ -509,6 +566,7 @@ func domLedger(env *Env) error {
 		for _, o := range w.ops {
 			w.emit("ledger.operator "+o.String(), "ok")
 		}
+		w.emit("ledger.chain "+hexutil.EncodeUint64(c.LzID), "ok")
 		for _, k := range sortedKeys(s0.stakers) {
 			f := strings.Split(k, "/")
 			v := s0.stakers[k]
@@ -531,6 +589,10 @@ func domLedger(env *Env) error {
 		for _, k := range sortedKeys(s0.assoc) {
 			w.emit(fmt.Sprintf("ledger.assoc %s %s", k, s0.assoc[k]), "ok")
 		}
+		for _, k := range sortedKeys(s0.bal) {
+			w.emit(fmt.Sprintf("ledger.bal %s %s", k, s0.bal[k]), "ok")
+		}
+		w.emit(fmt.Sprintf("ledger.escrow %s", s0.escrow), "ok")
 		w.emit("ledger.dump", "ok "+s0.dump())
 		for a := range s0.totals {
 			w.gDep[a] = new(big.Int).Set(s0.valueOf(a)) // value present at genesis counts as deposited
@@ -569,6 +631,14 @@ func (w *ledgerWorld) checkDelta(before, after *ledgerSnap, what string, expect 
 	w.env.Eval("C01.conservation")
 	for a := range after.totals {
 		d := new(big.Int).Sub(after.valueOf(a), before.valueOf(a))
+		if a == assetstypes.ExocoreAssetID {
+			// native token: value enters/leaves the ledger through the escrow account only
+			de := new(big.Int).Sub(after.escrow, before.escrow)
+			if (exact && d.Cmp(de) != 0) || (!exact && d.Cmp(de) > 0) {
+				w.env.Violate("C01.conservation", "native-value-vs-escrow:"+what, fmt.Sprintf("%s changed the native ledger value by %s but the escrow account by %s", what, d, de), w.hist)
+			}
+			continue
+		}
 		e := expect[a]
 		if e == nil {
 			e = new(big.Int)
@@ -600,6 +670,17 @@ func (w *ledgerWorld) step(prev *ledgerSnap, kinds map[string]int) *ledgerSnap {
 	w.curDec = w.assets[ai].Decimals
 	sid := StakerIDOf(c.LzID, st.Eth)
 	op := w.ops[r.Intn(len(w.ops))]
+	// the native token: staker = an Exocore account, client chain 0, asset address 0x00…00
+	lz, saddr, aaddr := c.LzID, st.Eth.Bytes(), w.assetAddr(ai)
+	useNative := func(a Actor) {
+		st, lz, saddr, aaddr = a, assetstypes.ExocoreChainLzID, a.Acc.Bytes(), common.HexToAddress(assetstypes.ExocoreAssetAddr).Bytes()
+		sid, asset = StakerIDOf(assetstypes.ExocoreChainLzID, a.Eth), assetstypes.ExocoreAssetID
+		w.curDec = 6
+	}
+	native := len(w.nstakers) > 0 && r.Chance(1, 5)
+	if native {
+		useNative(w.nstakers[r.Intn(len(w.nstakers))])
+	}
 	var after *ledgerSnap
 	finish := func(name, opLine string, err error, expect map[string]*big.Int) {
 		after = w.snapAndCheck()
@@ -624,7 +705,11 @@ func (w *ledgerWorld) step(prev *ledgerSnap, kinds map[string]int) *ledgerSnap {
 		w.checkDelta(prev, after, name, expect, true)
 		after.checkInvariants(w.env, w.hist, w.orphans)
 	}
-	switch r.Pick(14, 8, 16, 16, 14, 3, 3, 4, 2) {
+	kind := r.Pick(14, 8, 16, 16, 14, 3, 3, 4, 2)
+	if native && kind < 2 { // no deposit/withdraw of the native token: delegate instead
+		kind = 2
+	}
+	switch kind {
 	case 0: // deposit
 		x := w.amount(nil)
 		err := c.CachedDo(func(ctx sdk.Context) error {
@@ -648,10 +733,13 @@ func (w *ledgerWorld) step(prev *ledgerSnap, kinds map[string]int) *ledgerSnap {
 		if row, ok := prev.stakers[sid+"/"+asset]; ok {
 			near = row.withdrawable
 		}
+		if native {
+			near = prev.bal[sid]
+		}
 		x := w.amount(near)
 		err := c.CachedDo(func(ctx sdk.Context) error {
 			return c.App.DelegationKeeper.DelegateTo(ctx, &delegationtypes.DelegationOrUndelegationParams{
-				ClientChainID: c.LzID, AssetsAddress: w.assetAddr(ai), OperatorAddress: op, StakerAddress: st.Eth.Bytes(), OpAmount: x})
+				ClientChainID: lz, AssetsAddress: aaddr, OperatorAddress: op, StakerAddress: saddr, OpAmount: x})
 		})
 		finish("delegate", fmt.Sprintf("ledger.delegate %s %s %s %s", sid, asset, op, x), err, nil)
 	case 3, 4: // undelegate: prefer an existing delegation
@@ -664,15 +752,24 @@ func (w *ledgerWorld) step(prev *ledgerSnap, kinds map[string]int) *ledgerSnap {
 		var near *big.Int
 		if len(cands) > 0 && r.Chance(9, 10) {
 			f := strings.Split(cands[r.Intn(len(cands))], "/")
+			lz, aaddr = c.LzID, w.assetAddr(ai)
 			for _, s2 := range w.stakers {
 				if StakerIDOf(c.LzID, s2.Eth) == f[0] {
-					st, sid = s2, f[0]
+					st, sid, saddr = s2, f[0], s2.Eth.Bytes()
 				}
 			}
 			for j, id := range c.AssetIDs {
 				if id == f[1] {
 					ai, asset = j, id
+					aaddr = w.assetAddr(j)
 					w.curDec = w.assets[j].Decimals
+				}
+			}
+			if f[1] == assetstypes.ExocoreAssetID {
+				for _, s2 := range w.nstakers {
+					if StakerIDOf(assetstypes.ExocoreChainLzID, s2.Eth) == f[0] {
+						useNative(s2)
+					}
 				}
 			}
 			op = sdk.MustAccAddressFromBech32(f[2])
@@ -688,7 +785,7 @@ func (w *ledgerWorld) step(prev *ledgerSnap, kinds map[string]int) *ledgerSnap {
 		hash := common.BytesToHash(detBytes(uint64(nonce), "tx", int(c.Header.Height)))
 		err := c.CachedDo(func(ctx sdk.Context) error {
 			return c.App.DelegationKeeper.UndelegateFrom(ctx, &delegationtypes.DelegationOrUndelegationParams{
-				ClientChainID: c.LzID, AssetsAddress: w.assetAddr(ai), OperatorAddress: op, StakerAddress: st.Eth.Bytes(), OpAmount: x,
+				ClientChainID: lz, AssetsAddress: aaddr, OperatorAddress: op, StakerAddress: saddr, OpAmount: x,
 				LzNonce: nonce, TxHash: hash})
 		})
 		held := 0
@@ -706,14 +803,23 @@ func (w *ledgerWorld) step(prev *ledgerSnap, kinds map[string]int) *ledgerSnap {
 		if err != nil && near != nil && x.IsPositive() && x.BigInt().Cmp(near) <= 0 && !strings.HasPrefix(err.Error(), "panic:") {
 			w.env.Violate("C03.accept", "undelegate-rejected-within-position", fmt.Sprintf("undelegation of %s within position %s rejected: %v", x, near, err), w.hist)
 		}
-	case 5: // associate
+	case 5: // associate: mostly a (staker, operator) pair that already has delegations - preferably in several assets
+		if ks := sortedKeys(prev.deleg); len(ks) > 0 && !native && r.Chance(3, 4) {
+			f := strings.Split(ks[r.Intn(len(ks))], "/")
+			for _, s2 := range w.stakers {
+				if StakerIDOf(c.LzID, s2.Eth) == f[0] {
+					st, sid, saddr = s2, f[0], s2.Eth.Bytes()
+					op = sdk.MustAccAddressFromBech32(f[2])
+				}
+			}
+		}
 		err := c.CachedDo(func(ctx sdk.Context) error {
-			return c.App.DelegationKeeper.AssociateOperatorWithStaker(ctx, c.LzID, op, st.Eth.Bytes())
+			return c.App.DelegationKeeper.AssociateOperatorWithStaker(ctx, lz, op, saddr)
 		})
 		finish("associate", fmt.Sprintf("ledger.associate %s %s", sid, op), err, nil)
 	case 6: // dissociate
 		err := c.CachedDo(func(ctx sdk.Context) error {
-			return c.App.DelegationKeeper.DissociateOperatorFromStaker(ctx, c.LzID, st.Eth.Bytes())
+			return c.App.DelegationKeeper.DissociateOperatorFromStaker(ctx, lz, saddr)
 		})
 		finish("dissociate", "ledger.dissociate "+sid, err, nil)
 	case 7: // slash an operator through the real operator keeper
@@ -828,7 +934,7 @@ func (w *ledgerWorld) slash(prev *ledgerSnap, op sdk.AccAddress) *ledgerSnap {
 	c, r := w.c, w.rng
 	w.slashN++
 	factor := []string{"0", "0.000000000000000001", "0.05", "0.5", "1", "0.01", "0.999999999999999999"}[r.Intn(7)]
-	power := int64([]int{1, 10, 100, 1000, 1000000}[r.Intn(5)])
+	power := int64([]int{1, 10, 40, 60, 100, 150, 1000, 1000000}[r.Intn(8)])
 	h := c.Header.Height
 	infraction := h - int64(r.Intn(6))
 	if infraction < 0 {
@@ -840,6 +946,9 @@ func (w *ledgerWorld) slash(prev *ledgerSnap, op sdk.AccAddress) *ledgerSnap {
 	infr := stakingtypes.Infraction(1 + r.Intn(2))
 	if w.lastSlash != nil && r.Chance(1, 3) { // present an earlier slash event again
 		op, infraction, infr = w.lastSlash.op, w.lastSlash.infraction, w.lastSlash.infr
+	} else if w.lastSlash != nil && r.Chance(1, 3) { // a second, different event hitting the same records
+		op, infraction = w.lastSlash.op, w.lastSlash.infraction
+		infr = 3 - w.lastSlash.infr
 	}
 	w.lastSlash = &slashEvent{op, infraction, infr}
 	slashID := operatorkeeper.GetSlashIDForDogfood(infr, infraction)
@@ -879,6 +988,27 @@ func (w *ledgerWorld) slash(prev *ledgerSnap, op sdk.AccAddress) *ledgerSnap {
 	if ierr != nil || info.ExecutionInfo == nil {
 		// the slash was refused (error logged by SlashWithInfractionReason): it must have left no trace
 		w.env.Outcome("slash.refused")
+		// a slash for an operator that has stake must be executed (C04): the only legitimate refusal is
+		// the operator without any value
+		w.env.Eval("C04.refused")
+		hasStake, hasNativePool := false, false
+		for k, p := range prev.pools {
+			if strings.HasPrefix(k, op.String()+"/") {
+				if p.amount.Sign() > 0 || p.pending.Sign() > 0 {
+					hasStake = true
+				}
+				if strings.HasSuffix(k, "/"+assetstypes.ExocoreAssetID) {
+					hasNativePool = true
+				}
+			}
+		}
+		if hasStake {
+			if hasNativePool {
+				w.env.Violate("C04.refused", "F-04c:native-pool-blocks-slash", fmt.Sprintf("slash %s of %s refused although the operator has stake: it has a native-token pool and the native token is not a registered staking asset", slashID, op), w.hist)
+			} else {
+				w.env.Violate("C04.refused", "slash-refused-with-stake", fmt.Sprintf("slash %s of %s refused although the operator has stake", slashID, op), w.hist)
+			}
+		}
 		if after.dump() != prev.dump() {
 			w.env.Violate("C04.slash", "slash-effect-without-record", fmt.Sprintf("slash %s of %s changed the ledger but recorded no execution info: %v", slashID, op, ierr), w.hist)
 		}
